@@ -12,7 +12,7 @@ from ..model import AnalysisError, FunctionInfo, bind_args
 from ..roles import roles_of
 from ..symb import Translator, Untranslatable, is_zero
 from ..terms import guard_extra, call_name, canon, cmp_normal, const_num, guard_canon, norm_stmt, state_key
-from .common import iter_stores, reaching_assignments, self_attr_of
+from .common import deref_canon as _deref_c, iter_stores, reaching_assignments, self_attr_of
 
 EXPLANATION = (
     "R1 final sampling site: the loop bounded by options['noise_final_samples'] calls the logger with the no-record flag at the incumbent slot; "
@@ -92,7 +92,7 @@ def check(ctx):
     ctx.rule("R1", "the final samples are taken, unrecorded, at the very point that is returned; nothing evaluates after them", floor=4)
     floop = None
     for node in ast.walk(opt.node):
-        if isinstance(node, ast.For) and call_name(node.iter) == "range" and node.iter.args and canon(node.iter.args[0]) == "OPT[noise_final_samples]":
+        if isinstance(node, ast.For) and call_name(node.iter) == "range" and node.iter.args and _deref_c(prog, opt, node.iter.args[0]) == "OPT[noise_final_samples]":
             floop = node
     if floop is None:
         ctx.fail(opt, opt.node, "no loop over range(options['noise_final_samples']) re-samples the returned point", construct="<missing final sampling loop>")
@@ -122,8 +122,12 @@ def check(ctx):
                 ctx.check(isinstance(xv, ast.Call) and xv.args and canon(xv.args[0]) == "self.u", opt, xs[0], "x = inverse(self.u)", "the returned x is not computed from the point that was re-sampled", construct=f"self.x <- {canon(xv)[:50]}")
             # the reaching definition of self.u at the loop is a history iterate (x is an evaluated point)
             g = guard_canon(prog, opt, floop)
-            pre = [s for s in ustores if cfg.dominates(cfg.node_of(s).id, hn.id) and s.lineno < floop.lineno]
-            last = max(pre, key=lambda s: s.lineno) if pre else None
+            # (CFG order, not line numbers: inlined statements keep their helper's line numbers)
+            pre = [s for s in ustores if cfg.node_of(s) is not None and cfg.node_of(s).id != hn.id and cfg.dominates(cfg.node_of(s).id, hn.id)]
+            last = None
+            for s_ in pre:
+                if all(o is s_ or cfg.dominates(cfg.node_of(o).id, cfg.node_of(s_).id) for o in pre):
+                    last = s_
             okh = last is not None and state_key(getattr(last.value, "value", None)) == ("HIST", "u") if last is not None and isinstance(last.value, ast.Subscript) else False
             ctx.check(bool(okh), opt, last if last is not None else floop, "the re-sampled point is a recorded history iterate", "the point that is re-sampled and returned is not taken from the recorded iterates (it need not be a point BADS evaluated)", construct="final point source")
             # nothing evaluates after the loop
@@ -305,11 +309,15 @@ def check(ctx):
         y2 = canon(st2.targets[0].elts[0]) if isinstance(st2, ast.Assign) and isinstance(st2.targets[0], ast.Tuple) else None
         st1 = prog.parent(c1)
         y1 = canon(st1.targets[0].elts[0]) if isinstance(st1, ast.Assign) and isinstance(st1.targets[0], ast.Tuple) else None
-        tests = [n for n in ast.walk(mesh.node) if isinstance(n, ast.If) and "OPT[tol_noise]" in canon(n.test)]
+        from .common import deref_canon
+
+        tests = [n for n in ast.walk(mesh.node) if isinstance(n, ast.If) and ("OPT[tol_noise]" in canon(n.test) or "OPT[tol_noise]" in deref_canon(prog, mesh, n.test))]
         if not tests:
             ctx.fail(mesh, c2, "the repeat evaluation is not compared with options['tol_noise']", construct="<missing tol_noise comparison>")
         for tnode in tests:
             ct = canon(tnode.test)
+            if "OPT[tol_noise]" not in ct or not ct.startswith("(OPT[tol_noise] < np.abs("):
+                ct = deref_canon(prog, mesh, tnode.test)  # the gap / the comparison kept in a local
             want = {f"(OPT[tol_noise] < np.abs(({y1} - {y2})))", f"(OPT[tol_noise] < np.abs(({y2} - {y1})))"}
             sets = [s for s in tnode.body if isinstance(s, ast.Assign) and state_key(s.targets[0]) == ("OS", "uncertainty_handling_level") and const_num(s.value) == 1]
             ctx.check(ct in want and bool(sets), mesh, tnode, "|y - y'| > tol_noise raises the uncertainty level to 1", f"the noise test is '{ct}' (expected |{y1} - {y2}| > tol_noise setting the level to 1)", construct=f"noise test {ct}")
